@@ -24,7 +24,8 @@ NoOff == {0}
 \* would start beyond the canonical last batch ("tail": rewrites the tail from another batch, "crash": reads an
 \* empty / too short batch).  Exported for the harness to choose its real runs from (spec -> code).
 RealNS == {3072, 3073, 3500, 4096, 4097, 4608, 5000, 5120, 5121, 6000, 6144, 7000, 7168, 8192, 9100, 10240, 12000, 13000}
-RealNB == {3072, 4096, 5120}
+\* batch sizes: the multiples of 1024 in use, an odd one and one that is no multiple of the taper (stride 1025 / 1452)
+RealNB == {3072, 3073, 3500, 4096, 5120}
 RealNP == 1..8
 Hazard(n, nb, p) ==
     LET s == nb - 2 * T
@@ -70,7 +71,8 @@ MOutcome(m, n, nb, p) ==
        ELSE IF wr = 0..lastb THEN "ok"
        ELSE IF \E b \in 0..lastb : b \notin wr THEN "gap" ELSE "tail"
 Sens(n, nb, p) == {m \in Muts : MOutcome(m, n, nb, p) # "ok"}
-RealNSFor(nb) == RealNS \cup {nb + k * (nb - 2 * T) + r : k \in 0..3, r \in {0, 1, 2, 3, 5, 7}}
+\* lengths around every "last batch exactly full" point (r = -1: the last batch is one sample short of a full one)
+RealNSFor(nb) == RealNS \cup {nb + k * (nb - 2 * T) + r : k \in 0..3, r \in {-1, 0, 1, 2, 3, 5, 7}}
 RealTuples == {t \in (UNION {RealNSFor(nb) : nb \in RealNB}) \X RealNB \X RealNP : t[1] \in RealNSFor(t[2]) /\ t[1] > 2 * T /\ t[1] >= t[3]}
 ExportTuples == TLCGet("distinct") >= 0 /\
     JsonSerialize(IOEnv.OUT_FILE, SetToSeq({[ns |-> t[1], nb |-> t[2], np |-> t[3], hazard |-> Hazard(t[1], t[2], t[3]),
